@@ -86,8 +86,8 @@ Print Assumptions C20_mt_order_free.
 
 Definition C20_mt_equals_st_full_statement : Prop :=
   forall A (o : opts) fn con propagate so sm sf (others : list (tree A)) out names pi x,
-    (forall tasks lfs, flat_items A o (o_default o) con [] sm sf others sf 0 = Ok (tasks, lfs) ->
-                       forall id, id < List.length tasks -> In id pi) ->
+    (forall tasks lfs, flat_items A o (o_default o) con [] sm sf others sf 0%nat = Ok (tasks, lfs) ->
+                       forall id, (id < List.length tasks)%nat -> In id pi) ->
     st_front A o fn con propagate (Node so sm sf) others out names = MOk x ->
     mt_front A o fn con propagate (Node so sm sf) others out names pi = MOk x.
 
@@ -97,9 +97,9 @@ Theorem C20_mt_equals_st_partial :
   forall A (o : opts) fn b, o_fe o = Some b -> o_default o = false ->
   forall con propagate so sm sf (others : list (tree A)) pi,
     (o_inplace o = true -> nont_free A sf = true) ->
-    (forall tasks lfs, flat_items A o false con [] sm sf others sf 0 = Ok (tasks, lfs) ->
-                       forall id, id < List.length tasks -> In id pi) ->
-    match flat_items A o false con [] sm sf others sf 0 with
+    (forall tasks lfs, flat_items A o false con [] sm sf others sf 0%nat = Ok (tasks, lfs) ->
+                       forall id, (id < List.length tasks)%nat -> In id pi) ->
+    match flat_items A o false con [] sm sf others sf 0%nat with
     | Ok _ => mt_front A o fn con propagate (Node so sm sf) others None None pi
               = st_front A o fn con propagate (Node so sm sf) others None None
     | _ => forall r, st_front A o fn con propagate (Node so sm sf) others None None <> MOk r
@@ -172,7 +172,7 @@ Example C20_ex_apply_spec :
   let o := with_default (with_fe base_opts None) in
   wf_keys Z self_ex_forest = true /\ nohit Z self_ex_forest = true
   /\ exists x, front Z o (fn_of [3%Z]) false false self_ex [other_ex] None None = Ok (Some x)
-               /\ List.length (fkeys Z (match x with Node _ _ f => f | _ => FNil end)) = 2.
+               /\ List.length (fkeys Z (match x with Node _ _ f => f | _ => FNil end)) = 2%nat.
 Proof. exact example_apply_spec. Qed.
 Example C20_ex_inplace :
   let o := with_inplace base_opts in
@@ -184,7 +184,7 @@ Example C20_ex_out :
 Proof. exact example_out. Qed.
 Example C20_ex_mt :
   let o := with_checked base_opts in
-  flat_items Z o false false [] m0 (match nested2 with Node _ _ f => f | _ => FNil end) [] (match nested2 with Node _ _ f => f | _ => FNil end) 0
-  = Ok ([mkTask Z None (lf 1) []; mkTask Z None (lf 2) []], [LFut 0; LList [LFut 1]])
-  /\ exists x, mt_front Z o (fn_of []) false false nested2 [] None None [1; 0] = MOk (Some x).
+  flat_items Z o false false [] m0 (match nested2 with Node _ _ f => f | _ => FNil end) [] (match nested2 with Node _ _ f => f | _ => FNil end) 0%nat
+  = Ok ([mkTask Z None (lf 1) []; mkTask Z None (lf 2) []], [LFut 0%nat; LList [LFut 1%nat]])
+  /\ exists x, mt_front Z o (fn_of []) false false nested2 [] None None [1%nat; 0%nat] = MOk (Some x).
 Proof. exact example_mt. Qed.
